@@ -26,6 +26,12 @@ func lblErr(err error) string {
 func c16Lbl(r *rng, id string) {
 	ll := []int{0, 1, 2, 7, 254, 255, 256, 300}[r.intn(8)]
 	label := strings.Repeat(string(rune('a'+r.intn(20))), ll)
+	if r.chance(1, 5) {
+		// a label with characters outside ASCII (several bytes each): sizes are in bytes
+		unit := []string{"é", "ü", "日", "dc-zürich-"}[r.intn(4)]
+		label = strings.Repeat(unit, []int{1, 2, 5, 40, 85, 127}[r.intn(6)])
+		ll = len(label)
+	}
 	var buf []byte
 	switch r.intn(5) {
 	case 0:
@@ -54,7 +60,7 @@ func c16Lbl(r *rng, id string) {
 		}
 		rm = fmt.Sprintf("ok:%s:%d.%d", hx(nb), len(lab), digest([]byte(lab)))
 	}()
-	emit("C16 lbl id=%s ll=%d lc=%d buf=%s add=%s rm=%s", id, ll, label2c(label), hx(buf), add, rm)
+	emit("C16 lbl id=%s ll=%d lc=%d lhex=%s buf=%s add=%s rm=%s", id, ll, label2c(label), hx([]byte(label)), hx(buf), add, rm)
 }
 
 func label2c(l string) int {
